@@ -351,7 +351,9 @@ func (r *Reader) readFiles(roots []string, opts walkerOpts, ignores []string) bo
 	}
 	noerr := true
 	for _, root := range roots {
-		noerr = noerr && (fastwalk.Walk(&conf, root, fn) == nil)
+		// Walk the other roots even if this one fails
+		err := fastwalk.Walk(&conf, root, fn)
+		noerr = noerr && err == nil
 	}
 	return noerr
 }
